@@ -39,7 +39,7 @@ contract("queue", "Queue.empty", cls="Queue", sig=["self"], returns="bool",
 contract("queue", "Queue.qsize", cls="Queue", sig=["self"], returns="int",
     assumed=True, verify=False, props=["C13", "C14"], modifies=[], ensures=["result >= 0"],
     note="snapshot answer decided by the environment (other threads)")
-contract("threading", "Collector.__init__", cls="Collector", sig=["self", "func", "to_process", "results"],
+contract(ML, "Collector.__init__", cls="Collector", sig=["self", "func", "to_process", "results"],
     params={"func": "func", "to_process": "ref:Queue", "results": "ref:Queue"},
     assumed=True, verify=False, props=["C13"],
     modifies=["Collector._to_process@self", "Collector._results@self", "Collector.func@self", "Collector.started@self"],
